@@ -1,9 +1,240 @@
-import BqVerif.Model.QasmPrint
+import BqVerif.Proofs.QasmRegs
+import BqVerif.Proofs.QasmExprBasic
+import BqVerif.Proofs.QasmPrec
+import BqVerif.Proofs.QasmWitness
 import BqVerif.Generated.QasmTable
-/-! # C17 — OpenQASM 2 import/export (placeholder; theorems follow) -/
-namespace BqVerif.C17
-open BqVerif.Qasm
+/-! # C17 — OpenQASM 2 import/export preserves the program and agrees with Qiskit
 
-theorem C17_placeholder : (1 : Nat) = 1 := rfl
+The theorems are about the Lean model of the reader/writer (`BqVerif.Model.Qasm*`), which the
+run ties to `/repo/bqskit/ir/lang/qasm2` by comparing both on generated programs (harness/c17).
+The model follows the code as it is; where the code does not have the property, the
+full-strength statement is kept as a comment, a `_partial` theorem states what does hold and
+a `_witness` theorem (by `decide`) exhibits the failing input that the harness replays on the
+real code.
+-/
+namespace BqVerif.C17
+open BqVerif.Qasm BqVerif.Qasm.Generated
+
+/-! ## C17_flat_index — register arithmetic -/
+
+/-- A qubit named `name[i]` with `i` inside the register lies inside the circuit. -/
+theorem C17_flat_index_range {rs : Regs} {n : String} {o sz i : Nat}
+    (ho : firstIndex rs n = some o) (hs : regSize rs n = some sz) (hi : i < sz) :
+    argIndices rs ⟨n, some i⟩ = some [o + i] ∧ o + i < totalSize rs := by
+  refine ⟨?_, flat_lt_total ho hs hi⟩
+  simp [argIndices, ho]
+
+/-- Different (register, index) pairs inside their registers are different qubits. -/
+theorem C17_flat_index_inj {rs : Regs} {n n' : String} {o sz i o' sz' i' : Nat}
+    (ho : firstIndex rs n = some o) (hs : regSize rs n = some sz) (hi : i < sz)
+    (ho' : firstIndex rs n' = some o') (hs' : regSize rs n' = some sz') (hi' : i' < sz')
+    (h : o + i = o' + i') : n = n' ∧ i = i' :=
+  flat_inj ho hs hi ho' hs' hi' h
+
+/-- With distinct register names (which `qreg` enforces, see `C17_qregs_nodup`) every qubit of
+the circuit is `name[i]` for some register and some `i` inside it: the map is a bijection
+between valid pairs and `[0, Σ sizes)`. -/
+theorem C17_flat_index_surj {rs : Regs} (hnd : (rs.map Prod.fst).Nodup) {k : Nat}
+    (hk : k < totalSize rs) :
+    ∃ n o sz i, firstIndex rs n = some o ∧ regSize rs n = some sz ∧ i < sz ∧ o + i = k :=
+  flat_surj hnd hk
+
+/-- A bare register name is its `size` consecutive qubits, in order. -/
+theorem C17_flat_index_register {rs : Regs} {n : String} {l : List Nat}
+    (h : argIndices rs ⟨n, none⟩ = some l) :
+    ∃ o sz, firstIndex rs n = some o ∧ regSize rs n = some sz ∧
+      l = (List.range sz).map (· + o) :=
+  regIndices_eq (by simpa [argIndices] using h)
+
+/-- `qreg` keeps register names distinct. -/
+theorem C17_qregs_nodup {V : Type} (A : Arith V) (s s' : St V) (st : Stmt V)
+    (h : elabStmt A s st = some s') (hnd : (s.qregs.map Prod.fst).Nodup) :
+    (s'.qregs.map Prod.fst).Nodup := by
+  cases st with
+  | qreg n k =>
+    simp only [elabStmt] at h
+    split at h
+    · simp at h
+    · rename_i hany
+      simp only [Option.some.injEq] at h
+      subst h
+      simp only [List.map_append, List.map_cons, List.map_nil]
+      rw [List.nodup_append]
+      refine ⟨hnd, by simp, ?_⟩
+      intro a ha b hb
+      simp only [List.mem_cons, List.not_mem_nil, or_false] at hb
+      subst hb
+      intro hab
+      subst hab
+      apply hany
+      simp only [List.any_eq_true, beq_iff_eq]
+      simp only [List.mem_map] at ha
+      obtain ⟨p, hp, rfl⟩ := ha
+      exact ⟨p, hp, rfl⟩
+  | incl f => simp only [elabStmt, Option.some.injEq] at h; subst h; exact hnd
+  | opaqueDecl => simp only [elabStmt, Option.some.injEq] at h; subst h; exact hnd
+  | creg n k =>
+    simp only [elabStmt] at h
+    split at h
+    · simp at h
+    · simp only [Option.some.injEq] at h; subst h; exact hnd
+  | gatedecl name ps qs body =>
+    simp only [elabStmt, Option.map_eq_some_iff] at h
+    obtain ⟨b, _, rfl⟩ := h; exact hnd
+  | call c =>
+    simp only [elabStmt, Option.map_eq_some_iff] at h
+    obtain ⟨b, _, rfl⟩ := h; exact hnd
+  | measure q c =>
+    simp only [elabStmt, Option.map_eq_some_iff] at h
+    obtain ⟨b, _, rfl⟩ := h; exact hnd
+  | reset q =>
+    simp only [elabStmt, Option.map_eq_some_iff] at h
+    obtain ⟨b, _, rfl⟩ := h; exact hnd
+  | barrier as =>
+    simp only [elabStmt] at h
+    split at h
+    · split at h
+      · simp only [Option.some.injEq] at h; subst h; exact hnd
+      · simp at h
+    · simp at h
+
+/- Full strength (FALSE of the code): every accepted `name[i]` has `i < size name`, hence
+   `(name, i) ↦ offset + i` is injective on all accepted arguments.  The reader never compares
+   the index with the register size: -/
+/-- `q[3]` with `qreg q[2]; qreg r[2];` is accepted and IS the qubit `r[1]`. -/
+theorem C17_flat_index_guard_witness :
+    argIndices [("q", 2), ("r", 2)] ⟨"q", some 3⟩ = some [3] ∧
+    argIndices [("q", 2), ("r", 2)] ⟨"r", some 1⟩ = some [3] := by decide
+
+/-! ## C17_precedence — the expression reader -/
+
+/-- **The Python-level reading is exactly the precedence grammar** `sum > term > factor
+(unary minus; `**` right-associative and tighter than a minus on its left) > atom`: every
+expression tree is recovered from its minimal-parenthesis rendering. -/
+theorem C17_precedence {V : Type} (e : PE V) : pyParse (render 0 e) = some e :=
+  pyParse_render e
+
+/- Full strength (FALSE of the code): for every Lark tree `q`, `evalQ A q = specEvalQ A q`
+   (the reader gives an expression the value OpenQASM 2 gives it). -/
+/-- Without parenthesised sub-expressions, negative substituted values and `sqrt`/`exp`, the
+reader's value is the value of the expression: the Python text it builds is the program's
+own token string, read by the grammar of `C17_precedence`. -/
+theorem C17_expr_value_partial {V : Type} (A : Arith V) (q : QE V) (hq : q.plain A = true)
+    (hfn : ∀ e, pyParse (flattenSpec A q) = some e → e.noMissingFn = true) :
+    evalQ A q = specEvalQ A q := by
+  unfold evalQ specEvalQ
+  rw [flatten_eq_spec A q hq]
+  cases h : pyParse (flattenSpec A q) with
+  | none => rfl
+  | some e => simp [eval_eq_spec A e (hfn e h)]
+
+example : (QE.bin .add (.num "1") (.usub (.num "2")) : QE Int).plain intArith = true := by decide
+
+/-- `2*(1+2)`: the reader computes `2*1+2 = 4`, the expression means `6`. -/
+theorem C17_expr_paren_witness :
+    evalQ intArith (.bin .mul (.num "2") (.paren (.bin .add (.num "1") (.num "2")))) = some 4 ∧
+    specEvalQ intArith (.bin .mul (.num "2") (.paren (.bin .add (.num "1") (.num "2"))))
+      = some 6 := by decide
+
+/-- `sqrt(4)`: not readable (`NameError`), although it has a value. -/
+theorem C17_expr_function_witness :
+    evalQ intArith (.call .sqrt (.num "4")) = none ∧
+    evalQ intArith (.call .exp (.num "4")) = none ∧
+    (specEvalQ intArith (.call .sqrt (.num "4"))).isSome = true := by decide
+
+/-! ## C17_subst — formal parameters of user gates -/
+
+/- Full strength (FALSE of the code): `evalQ (substVals vs (bindIds ps q))` is the value of
+   `q` with the formals `ps` bound to `vs`. -/
+/-- `gate g(a) x { rz(a^2) x; }  g(-2) …`: the value `-2` is spliced in as the text `-2`,
+Python reads `-2**2 = -4`; the expression means `(-2)^2 = 4`. -/
+theorem C17_subst_negative_witness :
+    (substVals [-2] (bindIds ["a"] (.pow (.id "a") (.num "2")))).bind (evalQ intArith)
+      = some (-4) ∧
+    (substVals [-2] (bindIds ["a"] (.pow (.id "a") (.num "2")))).bind (specEvalQ intArith)
+      = some 4 := by decide
+
+/-! ## witnesses of the statement-level defects (token strings; the lexer is tied by the run) -/
+
+/-- `qreg q[2]; qreg r[3]; reset r;` resets qubits 0 and 1 (the first register). -/
+theorem C17_reset_register_witness :
+    (elabReset ({ qregs := [("q", 2), ("r", 3)] } : St Int) ⟨"r", none⟩).map
+      (fun l => l.map Op.loc) = some [[0], [1]] := by decide
+
+/-- `measure r[1] -> c[2]` on `qreg q[2]; qreg r[3]`: location 3, recorded key 1. -/
+theorem C17_measure_key_witness :
+    (elabMeasure ({ qregs := [("q", 2), ("r", 3)], cregs := [("c", 3)] } : St Int)
+      ⟨"r", some 1⟩ ⟨"c", some 2⟩).map (fun o => (o.loc, o.meas)) = some ([3], [(1, "c", 2)]) := by
+  decide
+
+/-- `barrier q, r;` is rejected although each register alone is readable. -/
+theorem C17_idlist_witness :
+    anylistIndices [("q", 1), ("r", 1)] [⟨"q", none⟩, ⟨"r", none⟩] = none ∧
+    argIndices [("q", 1), ("r", 1)] ⟨"q", none⟩ = some [0] ∧
+    argIndices [("q", 1), ("r", 1)] ⟨"r", none⟩ = some [1] := by decide
+
+/-- one `h` on qubit 0 of a one-qubit circuit -/
+def hOnQ0 : Option (Nat × List (String × List Nat × List Int)) := some (1, [("HGate", [0], [])])
+
+/-- `if (c == 1) h q[0];` is read exactly like `h q[0];`: the gate is applied. -/
+theorem C17_if_witness :
+    (decodeToks intArith tinyTable (hdrToks ++ qregToks "q" 1 ++
+        [.kw "if", .sym "(", .id "c", .sym "==", .num "1", .sym ")", .id "h"] ++
+        qb "q" 0 ++ [.sym ";"])).map Decoded.summary = hOnQ0 ∧
+    (decodeToks intArith tinyTable (hdrToks ++ qregToks "q" 1 ++ [.id "h"] ++
+        qb "q" 0 ++ [.sym ";"])).map Decoded.summary = hOnQ0 := by
+  constructor <;> decide
+
+/-! ## C17_gate_table — (B): the live table, regenerated on every run -/
+
+/-- declared arities = the gate object's own -/
+def arityOk (b : BuiltinDef) : Bool := b.np == b.gnp && b.nv == b.gnq
+
+/-- table keys whose row is known to be wrong on the unchanged tree -/
+def knownBadRows : List String := ["pxz"]
+
+/-- Every row of `gate_defs` (except the known bad one) declares the arities of its gate, so
+`Operation(gate, location, params)` accepts what the arity checks of `gate` let through. -/
+theorem C17_gate_table_arity_partial :
+    ∀ b ∈ gateDefs, b.key ∉ knownBadRows → arityOk b = true := by decide
+
+/-- `GateDef('pxz', 1, 3, PhasedXZGate())`: 3 parameters / 1 qubit declared as 1 / 3. -/
+theorem C17_gate_table_arity_witness :
+    ∃ b ∈ gateDefs, b.key = "pxz" ∧ (b.np, b.nv) = (1, 3) ∧ (b.gnp, b.gnq) = (3, 1) := by
+  decide
+
+/-- what an arity-correct row means for the reader: the operation is built -/
+theorem C17_gate_table_row_sound {V : Type} (A : Arith V) (b : BuiltinDef) (h : arityOk b = true)
+    (loc : List Nat) (ps : List V) (hps : ps.length = b.np) (hloc : loc.length = b.nv)
+    (hnd : nodup loc = true) (hne : ps ≠ [] ∨ b.gnp = 0) :
+    mkPrim A b loc ps = some (.prim b.gid loc ps) := by
+  simp only [arityOk, Bool.and_eq_true, beq_iff_eq] at h
+  unfold mkPrim
+  have h1 : (ps.isEmpty && b.gnp != 0) = false := by
+    rcases hne with h' | h'
+    · cases ps with
+      | nil => exact absurd rfl h'
+      | cons a as => simp
+    · simp [h']
+  simp [h1, hps, hloc, hnd, h.1, h.2]
+
+/-- a library gate is readable under its own spelling: some row has that key, the arities of
+the spelling (`extra` = parameters written inside the spelling, as in `rxx(pi/2)`) and is
+arity-correct -/
+def readable (g : LibGate) : Bool :=
+  gateDefs.any fun b => b.key == g.base && b.np == g.np + g.extra && b.nv == g.nq && arityOk b
+
+def knownUnreadable : List String := ["pxz", "st", "diag", "mpry", "mprz"]
+
+/-- Every library gate that is written through the table (no definition emitted) is readable
+under the spelling the writer uses — except the known ones. -/
+theorem C17_gate_table_readable_partial :
+    ∀ g ∈ libGates, g.kind = "table" → g.base ∉ knownUnreadable → readable g = true := by
+  decide
+
+/-- each known unreadable spelling really is one (so the exception list cannot rot) -/
+theorem C17_gate_table_readable_witness :
+    ∀ s ∈ knownUnreadable, ∃ g ∈ libGates, g.kind = "table" ∧ g.base = s ∧ readable g = false := by
+  decide
 
 end BqVerif.C17
